@@ -97,6 +97,36 @@ PROBES = [
     ("module.imported.only.by.failed.module", "import \"gcreg\"; try { import \"gcfail2\"; } catch err { print(err); } churn(); print(gcreg.hooks[0]());"),
 ]
 
+# every built-in the interpreter itself keeps using - the error classes it raises, StopIter and the iterator classes of core.yl, the classes
+# of built-in values - re-bound by the program (so that only the interpreter still refers to the object), a collection, MANY new classes
+# (whatever was freed gets reused), and then operations that make the interpreter use the object again
+def _decoys():
+    return "fn mkc(k) { class Decoy { fn who(self) { return k; } } return Decoy; } var decoys = []; { var i = 0; while i < 24 { decoys.push(mkc(i)); i = i + 1; } } "
+
+
+def _describe():
+    return ("fn describe(e) { var t = type(e); var chain = String.from(t); var c = 0; return chain + \" \" + String.from(e.derives(t)) + \" \" + String.from(e.context); } ")
+
+
+REBOUND = [
+    ("builtin.rebound.error.classes",
+     _describe() + "Error = nil; RuntimeError = nil; AttributeError = nil; IndexError = nil; ImportError = nil; NameError = nil; TypeError = nil; ValueError = nil; churn(); " + _decoys() +
+     "churn(); try { undefined_name; } catch e { print(describe(e)); } try { nil + 1; } catch e { print(describe(e)); } try { [1][5]; } catch e { print(describe(e)); } "
+     "try { [1][0.5]; } catch e { print(describe(e)); } try { nil.x; } catch e { print(describe(e)); } try { import \"no_such_module_here\"; } catch e { print(describe(e)); } "
+     "try { [].pop(); } catch e { print(describe(e)); } churn(); try { {}.get([1]); } catch e { print(describe(e)); } print(decoys[3].new == nil);"),
+    ("builtin.rebound.iteration.classes",
+     "StopIter = nil; Iter = nil; MapIter = nil; FilterIter = nil; churn(); " + _decoys() +
+     "churn(); var out = []; for x in [1, 2, 3] { out.push(x); } for c in \"ab\" { out.push(c); } for x in 0..2 { out.push(x); } for x in (7, 8) { out.push(x); } print(out); "
+     "print([1, 2, 3].iter().map(|x| x * 2).filter(|x| x > 2).collect()); print([1, 2, 3].iter().reduce(|a, b| a + b, 0)); var it = [1].iter(); it.next(); churn(); print(type(it.next())); print(type([1].iter().map(|x| x)));"),
+    ("builtin.rebound.value.classes",
+     "String = nil; Vec = nil; Tuple = nil; HashMap = nil; Range = nil; Num = nil; Bool = nil; Nil = nil; Fiber = nil; Func = nil; BuiltIn = nil; Method = nil; BuiltInMethod = nil; Object = nil; Type = nil; churn(); " + _decoys() +
+     "churn(); print(\"abc\".len()); print([1, 2].len()); print((1, 2).len()); print({1: 2}.len()); print((0..3).iter().next()); print(type(1)); print(type(true)); print(type(nil)); "
+     "print(type(\"s\")); print(type([1])); print(type((1,))); print(type({})); print(type(0..1)); print(type(|| 1)); print(type(print)); print(type([1].len)); churn(); print(type(type(1))); print(1.derives(type(1)));"),
+    ("builtin.rebound.in.a.class.declaration",
+     _describe() + "class NameError {} class StopIter {} class TypeError {} churn(); " + _decoys() +
+     "churn(); try { undefined_name; } catch e { print(describe(e)); } try { nil + 1; } catch e { print(describe(e)); } var out = []; for x in [1, 2] { out.push(x); } print(out);"),
+]
+
 PROBE_MODULES = {
     "gcreg": "var hooks = [];\nvar attempts = 0;\n",
     # (every load attempt gives the module's global a different content: memory of a dropped module object that a later one re-uses
@@ -118,4 +148,4 @@ PROBE_F3 = ("upvalue.open.into.dropped.fiber",
 
 
 def all_probes():
-    return [(n, CHURN + src, PROBE_MODULES) for n, src in PROBES]
+    return [(n, CHURN + src, PROBE_MODULES) for n, src in PROBES + REBOUND]
